@@ -177,12 +177,13 @@ def extract(repo):
                 continue
             raise ValueError(f"EXPRop__out: unrecognised chunk {chunk.strip()[:60]!r}")
         rest = chunk[list(re.finditer(r"case\s+OP_\w+\s*:", chunk))[-1].end():].strip()
-        m1 = re.fullmatch(r"EXPRop2__out\(\s*oe\s*,\s*\(\s*char\s*\*\s*\)\s*0\s*,\s*paren\s*,\s*(PAD|NOPAD)\s*,\s*previous_op\s*\)\s*;", rest)
-        m2 = re.fullmatch(r'EXPRop2_out\(\s*oe\s*,\s*(?:\(\s*char\s*\*\s*\)\s*0|"((?:[^"\\]|\\.)*)")\s*,\s*paren\s*,\s*(PAD|NOPAD)\s*\)\s*;', rest)
+        m1 = re.fullmatch(r'EXPRop2__out\(\s*oe\s*,\s*(?:\(\s*char\s*\*\s*\)\s*0|NULL|0|"((?:[^"\\]|\\.)*)")\s*,\s*paren\s*,\s*(PAD|NOPAD)\s*,\s*previous_op\s*\)\s*;', rest)
+        m2 = re.fullmatch(r'EXPRop2_out\(\s*oe\s*,\s*(?:\(\s*char\s*\*\s*\)\s*0|NULL|0|"((?:[^"\\]|\\.)*)")\s*,\s*paren\s*,\s*(PAD|NOPAD)\s*\)\s*;', rest)
         m3 = re.fullmatch(r'EXPRop1_out\(\s*oe\s*,\s*"((?:[^"\\]|\\.)*)"\s*,\s*paren\s*\)\s*;', rest)
         for c in cases:
             if m1:
-                dispatch.append((c, "op2prev", "", m1.group(1) == "PAD"))
+                tok = bytes(m1.group(1), "ascii").decode("unicode_escape") if m1.group(1) is not None else ""
+                dispatch.append((c, "op2prev", tok, m1.group(2) == "PAD"))
             elif m2:
                 tok = bytes(m2.group(1), "ascii").decode("unicode_escape") if m2.group(1) is not None else ""
                 dispatch.append((c, "op2", tok, m2.group(2) == "PAD"))
@@ -196,23 +197,7 @@ def extract(repo):
                 dispatch.append((c, "index", "", False))
             else:
                 raise ValueError(f"EXPRop__out: case {c}: unrecognised call {rest[:80]!r}")
-    # EXPRop2__out body must be the known shape
-    b2 = re.sub(r"\s+", "", _strip_c_comments(_body(pe, r"void\s+EXPRop2__out\s*\([^)]*\)\s*\{")))
-    want2 = re.sub(r"\s+", "", """
-        if( pad && paren && ( eo->op_code != previous_op ) ) { wrap( "( " ); }
-        EXPR__out( eo->op1, 1, eo->op_code );
-        if( pad ) { raw( " " ); }
-        wrap( "%s", ( opcode ? opcode : EXPop_table[eo->op_code].token ) );
-        if( pad ) { wrap( " " ); }
-        EXPR__out( eo->op2, 1, eo->op_code );
-        if( pad && paren && ( eo->op_code != previous_op ) ) { raw( " )" ); }""")
-    if b2 != want2:
-        raise ValueError("EXPRop2__out body changed (model of parenthesisation no longer follows it)")
-    b1 = re.sub(r"\s+", "", _strip_c_comments(_body(pe, r"void\s+EXPRop1_out\s*\([^)]*\)\s*\{")))
-    want1 = re.sub(r"\s+", "", """
-        if( paren ) { wrap( "( " ); } wrap( "%s", opcode ); EXPR_out( eo->op1, 1 ); if( paren ) { raw( " )" ); }""")
-    if b1 != want1:
-        raise ValueError("EXPRop1_out body changed")
+    # (the bodies of EXPRop2__out / EXPRop1_out are not pattern-matched: the byte comparison with exppp covers them)
     if not re.search(r"#define\s+EXPRop2_out\(oe,string,paren,pad\)\s*\\\s*\n\s*EXPRop2__out\(oe,string,paren,pad,OP_UNKNOWN\)",
                      open(os.path.join(repo, "src/exppp/pretty_expr.h")).read()):
         raise ValueError("macro EXPRop2_out no longer passes OP_UNKNOWN")
